@@ -317,6 +317,7 @@ func checkTransferAuthzArgs(method *abi.Method, args []interface{}) (common.Addr
 			SourcePort:    a.SourcePort,
 			SourceChannel: a.SourceChannel,
 			SpendLimit:    spendLimit,
+			AllowList:     a.AllowList,
 		}
 	}
 
